@@ -301,6 +301,14 @@ func (r *Route) goodRegexString(n, v string) {
 	}
 }
 
+// the compiled path regex must have exactly one capturing group per path var,
+// otherwise matchRegex cannot align the submatches with the var names.
+func (r *Route) goodRegexGroups() {
+	if n := r.regex.NumSubexp(); n != len(r.matches) {
+		goutil.Panicf("invalid route path '%s': %d capturing group(s) for %d path var(s)", r.path, n, len(r.matches))
+	}
+}
+
 // check start string and match a regex route
 func (r *Route) match(path string) (ps Params, ok bool) {
 	// check start string
